@@ -437,5 +437,6 @@ func main() {
 	r.Assume("a destination with neither its own sampler nor __default__ (possible only with --no-validate) has no sampler at all and is outside the statement; such inputs are counted as skipped")
 	r.Assume("'available when it decides' is observed end to end: the value of every field the selected sampler reads appears in the key that sampler computed inside the real makeDecision, on every ingestion path")
 	envLookupPart(r)
+	reloadWorkersPart(r)
 	r.Finish()
 }
